@@ -224,7 +224,12 @@ func (E *Engine) attach(cfg *PropConfig, only string) []target {
 		}
 		out = append(out, target{fn, fc})
 	}
-	sort.Slice(out, func(i, j int) bool { return out[i].fn.Pos() < out[j].fn.Pos() })
+	// deterministic order: by file name and offset (token.Pos alone depends on the order files were loaded in)
+	posKey := func(f *ssa.Function) string {
+		p := E.L.Prog.Fset.Position(f.Pos())
+		return fmt.Sprintf("%s:%09d:%s", p.Filename, p.Offset, fullName(f))
+	}
+	sort.Slice(out, func(i, j int) bool { return posKey(out[i].fn) < posKey(out[j].fn) })
 	return out
 }
 
